@@ -25,7 +25,7 @@ Arrive(d) == /\ cur = "none" /\ net[d] > 0
 \* 2.2.7: a response side blocked by DATA_OTHER is released when the caller has no request data to offer
 Blocked(d) == IF d = "res" THEN blk.res /\ rem.req > 0 ELSE blk.req
 Offer(d) == /\ cur = "none" /\ rem[d] > 0 /\ ~Blocked(d)
-            /\ \E n \in 1..MinOf(rem[d], MaxAvail) : DataEnter(d, n) /\ offered' = n
+            /\ \E n \in 1..MinOf(rem[d], MaxAvail) : DataEnter(d, n, FALSE) /\ offered' = n
             /\ blk' = [blk EXCEPT ![Other(d)] = FALSE, ![d] = FALSE]
             /\ UNCHANGED <<net, rem, l>>
 Internal == /\ (StepBegin \/ (\E nm \in AllHooks : CbStep(nm)) \/ CbsDone \/ RetStep)
